@@ -11,3 +11,51 @@ package engine
 //@   ensures [no-env] result != nil && !has(result, "env") && !has(result, "expandenv")
 //@   loop 1 invariant [no-env] f != nil && !has(f, "env") && !has(f, "expandenv")
 //@   loop 1 invariant [extra-has-no-env] !has(extra, "env") && !has(extra, "expandenv") && extra != f
+
+// ---- C05: top-level templates are executed in the order of sortTemplates (a function of the set of
+// template paths only), never in map iteration order
+
+//@ func byPathLen.Less
+//@   props C05
+//@   requires 0 <= i && i < len(p) && 0 <= j && j < len(p)
+//@   ensures result == pathLess(p[i], p[j])
+
+//@ func sortTemplates
+//@   props C05
+//@   ensures [reverse-sorted] forall a, b int :: 0 <= a && a < b && b < len(result) ==> !pathLess(result[a], result[b])
+
+//@ func Engine.render
+//@   props C05
+//@   requires tpls != nil
+//@   ensures [templates-run-in-sorted-order] err == nil ==> GexecOrdered[t]
+//@   loop 1 invariant [nothing-executed-yet] t != nil && GexecLast[t] == "" && GexecOrdered[t]
+//@   loop 2 invariant [in-order-so-far] GexecOrdered[t]
+//@   loop 2 invariant [sorted-prefix-executed] t != nil && (GexecLast[t] == "" || (exists p int :: 0 <= p && p < #iter && keys[p] == GexecLast[t]))
+//@   loop 2 invariant [keys-sorted] forall a, b int :: 0 <= a && a < b && b < len(keys) ==> !pathLess(keys[a], keys[b])
+
+// ---- C20: the recursion limit of include/tpl works because every include and tpl function installed
+// on a template set (also on the clones made by tpl) closes over the one counter of the render
+
+//@ func includeFun
+//@   props C20
+//@   marks counterOf(box(result)) == includedNames
+
+//@ func tplFun
+//@   props C20
+//@   marks counterOf(box(result)) == includedNames
+
+//@ func tplFun$1
+//@   props C20
+//@   ensures [nested-include-and-tpl-share-the-recursion-counter] forall c *template.Template :: (GincludeCounter[c] != old(GincludeCounter)[c] ==> GincludeCounter[c] == includedNames) && (GtplCounter[c] != old(GtplCounter)[c] ==> GtplCounter[c] == includedNames)
+
+//@ func Engine.initFunMap
+//@   props C20
+//@   requires t != nil
+//@   ensures [one-counter-per-render] GincludeCounter[t] == GtplCounter[t] && fresh(GincludeCounter[t])
+
+//@ func includeFun$1
+//@   props C20
+//@   requires includedNames != nil && t != nil
+//@   ensures [depth-limited] old(has(includedNames, name) && includedNames[name] > recursionMaxNums) ==> result1 != nil && GexecLast == old(GexecLast)
+//@   ensures [counter-restored] !old(has(includedNames, name)) ==> has(includedNames, name) && includedNames[name] == 0
+//@   ensures [counter-restored-nested] old(has(includedNames, name)) ==> includedNames[name] == old(includedNames[name])
